@@ -24,6 +24,7 @@ import (
 	"os"
 	"sort"
 	"strings"
+	"time"
 
 	"github.com/inspirer/textmapper/grammar"
 
@@ -58,9 +59,11 @@ type gspec struct {
 	tm       string
 	cases    []xcase
 	adj      bool // some expansion has two actions with nothing between them
+	flHelper bool // some recorded first()/last() can land on an extracted action / lookahead
 	absent   bool // some exercised expansion lacks a symbol of the rule as written
 	hasMid   bool
 	shortest int
+	items    int
 }
 
 func (g *gspec) ruleTexts() string {
@@ -155,6 +158,7 @@ func (g *gspec) finish(name string) bool {
 		look = look || hasKind(r.body, kLook)
 		g.hasMid = g.hasMid || r.hasMid
 		g.adj = g.adj || adjacentActions(r.exps)
+		g.flHelper = g.flHelper || r.flHelper
 	}
 	if len(g.rules) > 1 {
 		terms["tz"] = true
@@ -313,13 +317,14 @@ func tuples(n int, lim int, f func(t []int)) {
 func enumerate(quick bool) []*gspec {
 	var out []*gspec
 	seen := map[string]bool{}
+	curItems := 0
 	add := func(desc string, rules ...*rule) {
 		for _, r := range rules {
 			if r == nil {
 				return
 			}
 		}
-		g := &gspec{desc: desc, rules: rules}
+		g := &gspec{desc: desc, rules: rules, items: curItems}
 		for i := range rules {
 			if i == 0 {
 				g.prefix = append(g.prefix, "")
@@ -337,46 +342,65 @@ func enumerate(quick bool) []*gspec {
 		seen[g.tm] = true
 		out = append(out, g)
 	}
-	single := func(items []int, withSingles, midOnly bool) {
+	single := func(items []int, v int) {
+		curItems = len(items)
 		body := buildBody(items)
 		if body == nil {
 			return
 		}
 		ng := len(gaps(&body))
 		nm := itemNames(items)
-		add(nm+" / end action only", makeRule(items, nil, true, -1))
+		if v&vEnd != 0 {
+			add(nm+" / end action only", makeRule(items, nil, true, -1))
+		}
 		// the largest placement (greedy, left to right) in which no expansion puts two actions
-		// next to each other, then really every gap
+		// next to each other
 		greedy := greedySel(items, true)
-		add(nm+" / actions at every gap that cannot become adjacent to another action", makeRule(items, func([]gap) map[int]bool { return greedy }, true, -1))
-		add(nm+" / actions at every gap", makeRule(items, selAll, true, -1))
-		if withSingles {
+		if v&vGreedy != 0 {
+			add(nm+" / actions at every gap that cannot become adjacent to another action", makeRule(items, func([]gap) map[int]bool { return greedy }, true, -1))
+		}
+		if v&vAll != 0 {
+			add(nm+" / actions at every gap", makeRule(items, selAll, true, -1))
+		}
+		if v&vSingles != 0 {
 			for gi := 0; gi < ng; gi++ {
 				gi := gi
 				add(fmt.Sprintf("%s / mid-rule action at gap %d", nm, gi), makeRule(items, func([]gap) map[int]bool { return map[int]bool{gi: true} }, true, -1))
 			}
 		}
-		if midOnly {
+		if v&vFL != 0 {
+			add(nm+" / actions at every non-adjacent gap, first()/last() recorded everywhere", forceFL(makeRule(items, func([]gap) map[int]bool { return greedy }, true, -1)))
+		}
+		if v&vMidOnly != 0 {
 			g2 := greedySel(items, false)
 			add(nm+" / actions at every non-adjacent gap, no end action", makeRule(items, func([]gap) map[int]bool { return g2 }, false, -1))
 		}
 	}
-	pairs := func(items []int) {
+	pairs := func(items []int, alsoAll, full bool) {
+		curItems = len(items)
 		nm := itemNames(items)
-		base := makeRule(items, selAll, true, -1)
-		if base == nil || !hasTopMid(base.body) {
-			return
+		placements := []func([]gap) map[int]bool{func([]gap) map[int]bool { return greedySel(items, true) }}
+		if alsoAll {
+			placements = append(placements, selAll)
 		}
-		add(nm+" / two identical rules", makeRule(items, selAll, true, -1), makeRule(items, selAll, true, -1))
-		for li := 0; li <= len(base.body); li++ {
-			// directly before or after a top-level mid-rule action
-			before := li < len(base.body) && base.body[li].k == kAct && !base.body[li].end
-			after := li > 0 && base.body[li-1].k == kAct
-			if !before && !after {
+		for _, sel := range placements {
+			base := makeRule(items, sel, true, -1)
+			if base == nil || !hasTopMid(base.body) {
 				continue
 			}
-			add(fmt.Sprintf("%s / same rule twice, second with a lookahead at %d", nm, li), makeRule(items, selAll, true, -1), makeRule(items, selAll, true, li))
-			add(fmt.Sprintf("%s / same rule twice, first with a lookahead at %d", nm, li), makeRule(items, selAll, true, li), makeRule(items, selAll, true, -1))
+			add(nm+" / two identical rules", noFL(makeRule(items, sel, true, -1)), noFL(makeRule(items, sel, true, -1)))
+			for li := 0; li <= len(base.body); li++ {
+				// directly before or after a top-level mid-rule action
+				before := li < len(base.body) && base.body[li].k == kAct && !base.body[li].end
+				after := li > 0 && base.body[li-1].k == kAct
+				if !before && !(after && full) {
+					continue
+				}
+				add(fmt.Sprintf("%s / same rule twice, second with a lookahead at %d", nm, li), noFL(makeRule(items, sel, true, -1)), noFL(makeRule(items, sel, true, li)))
+				if full {
+					add(fmt.Sprintf("%s / same rule twice, first with a lookahead at %d", nm, li), noFL(makeRule(items, sel, true, li)), noFL(makeRule(items, sel, true, -1)))
+				}
+			}
 		}
 	}
 	idx := func(names ...string) []int {
@@ -395,34 +419,67 @@ func enumerate(quick bool) []*gspec {
 		}
 		return t
 	}
-	// 1 item: whole catalogue, every variant
-	tuples(1, len(catalogue), func(t []int) { single(t, true, true) })
 	if quick {
-		// 2 items: reduced catalogue, end-only + every-gap; singles for the two basic shapes
-		tuples(2, reducedCatalogue, func(t []int) { single(t, t[0] <= 1 && t[1] <= 1, false) })
-		for _, t := range [][]int{idx("s", "dup"), idx("s?", "dup"), idx("s?", "(s|s s)"), idx("s", "set(s|s)[x]"), idx("s?", "(s separator s)+"), idx("s*[x]", "s")} {
-			single(t, false, false)
+		// 1 item: whole catalogue; single-gap placements for the reduced catalogue only
+		tuples(1, len(catalogue), func(t []int) {
+			v := vEnd | vGreedy | vAll
+			if t[0] < reducedCatalogue {
+				v |= vSingles | vMidOnly
+			}
+			if t[0] == 0 {
+				v |= vFL
+			}
+			single(t, v)
+		})
+		// 2 items: reduced catalogue, maximal non-adjacent placement
+		tuples(2, reducedCatalogue, func(t []int) {
+			v := vGreedy
+			if t[0] <= 1 && t[1] <= 1 {
+				v |= vAll | vSingles
+			}
+			single(t, v)
+		})
+		for _, t := range [][]int{idx("s", "dup"), idx("s?", "dup"), idx("s?", "(s|s s)"), idx("s", "set(s|s)[x]"), idx("s?", "(s separator s)+"), idx("s*[x]", "s"), idx("s", "(s (s|s)?)?"), idx("(s?|P)[x]", "s")} {
+			single(t, vGreedy)
 		}
 		// 3 items with a lookahead in the middle
 		for _, a := range []string{"s", "s?", "(s|s)[x]"} {
 			for _, b := range []string{"s", "P"} {
-				single(idx(a, "(?=Z)", b), false, false)
+				single(idx(a, "(?=Z)", b), vGreedy)
 			}
 		}
-		single(idx("s", "s?", "s"), false, false)
-		single(idx("s?", "s", "dup"), false, false)
+		single(idx("s", "(?=Z)", "s"), vFL)
+		single(idx("s", "s?", "s"), vGreedy|vAll)
+		single(idx("s?", "s", "dup"), vGreedy)
 		// pairs sharing action texts
-		for _, t := range [][]int{idx("s", "s"), idx("s?", "s"), idx("s", "s?"), idx("(s|s)[x]", "s"), idx("s+[x]", "s"), idx("P", "s"), idx("s", "s", "s")} {
-			pairs(t)
+		pairs(idx("s", "s"), false, true)
+		for _, t := range [][]int{idx("s?", "s"), idx("(s|s)[x]", "s"), idx("s+[x]", "s"), idx("P", "s"), idx("s", "s", "s")} {
+			pairs(t, false, false)
 		}
 		return out
 	}
-	tuples(2, len(catalogue), func(t []int) { single(t, true, true) })
-	tuples(2, reducedCatalogue, pairs)
-	tuples(3, reducedCatalogue, func(t []int) { single(t, false, false) })
-	tuples(3, 3, pairs)
+	tuples(1, len(catalogue), func(t []int) { single(t, vEnd|vGreedy|vAll|vSingles|vMidOnly|vFL) })
+	tuples(2, len(catalogue), func(t []int) {
+		v := vEnd | vGreedy | vAll
+		if t[0] < reducedCatalogue && t[1] < reducedCatalogue {
+			v |= vSingles | vMidOnly | vFL
+		}
+		single(t, v)
+	})
+	tuples(2, reducedCatalogue, func(t []int) { pairs(t, true, true) })
+	tuples(3, reducedCatalogue, func(t []int) { single(t, vGreedy) })
+	tuples(3, 3, func(t []int) { pairs(t, false, true) })
 	return out
 }
+
+const (
+	vEnd = 1 << iota
+	vGreedy
+	vAll
+	vSingles
+	vMidOnly
+	vFL
+)
 
 // greedySel selects gaps left to right, keeping a gap only if no expansion of the resulting rule
 // has two actions with nothing between them.
@@ -446,6 +503,20 @@ func greedySel(items []int, end bool) map[int]bool {
 		}
 	}
 	return sel
+}
+
+func noFL(r *rule) *rule {
+	if r != nil {
+		r.noFL = true
+	}
+	return r
+}
+
+func forceFL(r *rule) *rule {
+	if r != nil {
+		r.forceFL = true
+	}
+	return r
 }
 
 func hasTopMid(body []*node) bool {
@@ -604,10 +675,20 @@ func run(c *core.Ctx) {
 	// grammars that can put two actions next to each other go into batches of their own: the
 	// generated code for those does not build at present (finding adjacent-actions), and one
 	// failing package costs a rebuild of the whole batch
+	// order: single rules of one item, then the pairs, then the rest (each simplest first), so that
+	// a run cut short by the budget has still seen every family
 	var order []*gspec
-	for _, g := range specs {
-		if !g.adj {
-			order = append(order, g)
+	for rank := 0; rank < 3; rank++ {
+		for _, g := range specs {
+			r := 2
+			if len(g.rules) > 1 {
+				r = 1
+			} else if g.items == 1 {
+				r = 0
+			}
+			if !g.adj && r == rank {
+				order = append(order, g)
+			}
 		}
 	}
 	nPlain := len(order)
@@ -616,7 +697,7 @@ func run(c *core.Ctx) {
 			order = append(order, g)
 		}
 	}
-	batch := 100
+	batch := 64
 	var evals, nontrivial, built int64
 	classes := map[string]int{}
 	for start := 0; start < len(order); {
@@ -639,7 +720,11 @@ func run(c *core.Ctx) {
 			}
 			hs = append(hs, genharness.Spec{Name: name, TM: tm, Cases: cases})
 		}
+		t0 := time.Now()
 		outs, err := genharness.RunBatch(hs, genharness.BatchOpts{})
+		if os.Getenv("C16_TIMING") != "" {
+			fmt.Fprintf(os.Stderr, "batch %d..%d: %v\n", start, end, time.Since(t0))
+		}
 		if err != nil {
 			c.Violate("harness:build", err.Error(), nil)
 			return
@@ -653,6 +738,12 @@ func run(c *core.Ctx) {
 				continue
 			case out.GenErr != "" && isConflict(out.GenErr):
 				c.Add("grammars_with_lalr_conflicts_skipped", 1)
+				continue
+			case out.GenErr != "" && g.flHelper && strings.Contains(out.GenErr, "internal error: cannot find the position for index"):
+				c.Violate("first-last:internal-error-on-helper-symbol", fmt.Sprintf("%s  [%s]: ${first()...} / ${last()...} in an action whose first / last preceding stack symbol is an extracted mid-rule action or a lookahead: %s", g.ruleTexts(), g.desc, out.GenErr), rCase{Kind: "generate", Rules: g.ruleTexts(), TM: tm})
+				continue
+			case out.GenErr != "" && g.adj && strings.Contains(out.GenErr, "invalid reference"):
+				c.Violate("adjacent-actions:merged-code-resolved-in-later-scope", fmt.Sprintf("%s  [%s]: an expansion puts two actions next to each other; their code is concatenated and resolved with the names visible to the later one only: %s", g.ruleTexts(), g.desc, out.GenErr), rCase{Kind: "generate", Rules: g.ruleTexts(), TM: tm})
 				continue
 			case out.GenErr != "":
 				c.Violate("generate:error", fmt.Sprintf("%s  [%s]: %s", g.ruleTexts(), g.desc, out.GenErr), rCase{Kind: "generate", Rules: g.ruleTexts(), TM: tm})
